@@ -76,48 +76,55 @@ func runRealRoots(c *hlib.Ctx, n int) {
 		if c.Rng.Intn(2) == 0 {
 			lead = -lead
 		}
-		build := func(lead float64) numerical.Polynomial {
-			p := numerical.Polynomial{lead}
-			for _, r := range roots {
-				p = p.Mul(numerical.Polynomial{-r, 1})
-			}
-			for _, q := range quads {
-				p = p.Mul(numerical.Polynomial{q[0]*q[0] + q[1], -2 * q[0], 1})
-			}
-			return p
-		}
-		deg := len(roots) + 2*len(quads)
-		c.Stat(fmt.Sprintf("c17.realroots.deg%d_lead%s", deg, map[bool]string{true: "neg", false: "pos"}[lead < 0]), 1)
-		var qa []float64
-		for _, q := range quads {
-			qa = append(qa, q[0], q[1])
-		}
-		args := join(md.num(lead), itoa(len(roots)), md.nums(roots...), itoa(len(quads)), md.nums(qa...))
-		emit(c, md, "realroots", args, func() string {
-			render := func(p numerical.Polynomial) string {
-				// the SAME polynomial value is used twice: the root finder (deflation by divideRoot, recursion on
-				// sub-slices) must leave it alone and answer the same again
-				keep := preserved(c, "Polynomial.RealRoots", p)
-				rs := p.RealRoots()
-				again := p.RealRoots()
-				keep()
-				if fmt.Sprint(again) != fmt.Sprint(rs) {
-					c.PropFail("RealRoots/second-call-differs", fmt.Sprintf("p=%v: first %v, then %v", p, rs, again))
-				}
-				sort.Float64s(rs)
-				for j, r := range rs {
-					rs[j] = math.Round(r*65536) / 65536
-				}
-				return polyOut(md, rs)
-			}
-			a, b := render(build(lead)), render(build(-lead))
-			if a != b {
-				c.PropFail("RealRoots/p-and-minus-p-have-different-roots",
-					fmt.Sprintf("lead=%v roots=%v quadratics(h,k)=%v: roots(p)=%s roots(-p)=%s", lead, roots, quads, a, b))
-			}
-			return join(a, "|", b)
-		})
+		emitRealRoots(c, md, lead, roots, quads)
 	}
+}
+
+// emitRealRoots emits one `realroots` case for p = lead · ∏(x − r_i) · ∏((x − h_j)² + k_j) (and for −p) and returns the
+// polynomial that was solved.
+func emitRealRoots(c *hlib.Ctx, md mode, lead float64, roots []float64, quads [][2]float64) numerical.Polynomial {
+	build := func(lead float64) numerical.Polynomial {
+		p := numerical.Polynomial{lead}
+		for _, r := range roots {
+			p = p.Mul(numerical.Polynomial{-r, 1})
+		}
+		for _, q := range quads {
+			p = p.Mul(numerical.Polynomial{q[0]*q[0] + q[1], -2 * q[0], 1})
+		}
+		return p
+	}
+	deg := len(roots) + 2*len(quads)
+	c.Stat(fmt.Sprintf("c17.realroots.deg%d_lead%s", deg, map[bool]string{true: "neg", false: "pos"}[lead < 0]), 1)
+	var qa []float64
+	for _, q := range quads {
+		qa = append(qa, q[0], q[1])
+	}
+	args := join(md.num(lead), itoa(len(roots)), md.nums(roots...), itoa(len(quads)), md.nums(qa...))
+	emit(c, md, "realroots", args, func() string {
+		render := func(p numerical.Polynomial) string {
+			// the SAME polynomial value is used twice: the root finder (deflation by divideRoot, recursion on
+			// sub-slices) must leave it alone and answer the same again
+			keep := preserved(c, "Polynomial.RealRoots", p)
+			rs := p.RealRoots()
+			again := p.RealRoots()
+			keep()
+			if fmt.Sprint(again) != fmt.Sprint(rs) {
+				c.PropFail("RealRoots/second-call-differs", fmt.Sprintf("p=%v: first %v, then %v", p, rs, again))
+			}
+			sort.Float64s(rs)
+			for j, r := range rs {
+				rs[j] = math.Round(r*65536) / 65536
+			}
+			return polyOut(md, rs)
+		}
+		a, b := render(build(lead)), render(build(-lead))
+		if a != b {
+			c.PropFail("RealRoots/p-and-minus-p-have-different-roots",
+				fmt.Sprintf("lead=%v roots=%v quadratics(h,k)=%v: roots(p)=%s roots(-p)=%s", lead, roots, quads, a, b))
+		}
+		return join(a, "|", b)
+	})
+	return build(lead)
 }
 
 // ---------------------------------------------------------------- Bezier arc length (VALIDATION)
